@@ -311,6 +311,29 @@ func init() {
 		},
 	})
 
+	// every sync committee is the whole registry (16 or 32 validators at the maximum, SYNC_COMMITTEE_SIZE 32: no candidate is ever
+	// rejected), consecutive committees differ in ORDER only; nothing changes the registry
+	register(&Scenario{
+		Name:  "sync_same_multiset",
+		Knobs: SpecKnobs{AllForksInside: true, SameMultiset: true, ForkBias: "early"},
+		Gen:   GenesisKnobs{MinVals: 16, MaxVals: 32, SameMultiset: true, AllMax: true, Eth1Share: 30},
+		Rates: OpRates{},
+		Init: func(c *Chain) {
+			c.NoDoubleVotes = true
+			c.VoteAlways = true
+			c.QuietRegistry = true
+		},
+		Mode:     func(c *Chain, e common.Epoch) string { return "full" },
+		SyncMode: func(c *Chain, s common.Slot) string { return pick(c.Rng, "most", "most", "half", "full") },
+		Check: func(c *Chain) (out []string) {
+			commonChecks(c, &out)
+			if c.Spec.EPOCHS_PER_SYNC_COMMITTEE_PERIOD == 2 && int(c.Spec.ALTAIR_FORK_EPOCH)+4 < c.Epochs {
+				expect(c.Stats.Get("consecutive_sync_committees_same_multiset_different_order") >= 1, &out, "no two consecutive sync committees with the same members in another order")
+			}
+			return
+		},
+	})
+
 	register(&Scenario{
 		Name:  "activation_queue",
 		Knobs: SpecKnobs{AllForksInside: true, SmallChurn: true, FastEth1: true},
